@@ -36,8 +36,24 @@ type HostileCase struct {
 	Conns  []HostileConn `json:"conns"`
 }
 
+// sentinelEsc is appended to the messages of sentinels B and C: escape sequences, which the Fluentd output of the sample
+// configuration turns into the real characters (a per-record flag in a recycled record object decides whether it does).
+const sentinelEsc = `\n\tdetail=x`
+
+func sentinelLog(conn int, which string, unescaped bool) string {
+	s := fmt.Sprintf("sentinel-%s-of-connection-%d says hello to everybody", which, conn)
+	if which != "A" {
+		if unescaped {
+			s += "\n\tdetail=x"
+		} else {
+			s += sentinelEsc
+		}
+	}
+	return s
+}
+
 func sentinel(conn int, which string) string {
-	return fmt.Sprintf("<166>1 2022-08-15T03:48:33.760+03:00 basic-1 appServ/foo.com 51629 main.log - sentinel-%s-of-connection-%d says hello to everybody", which, conn)
+	return "<166>1 2022-08-15T03:48:33.760+03:00 basic-1 appServ/foo.com 51629 main.log - " + sentinelLog(conn, which, false)
 }
 
 // logsOf extracts the "log"/"message" texts of all records of a chunk (Forward or Datadog).
@@ -150,9 +166,8 @@ func runHostile(c HostileCase) vh.Result {
 		if hc.Abrupt {
 			// A reset discards whatever the agent has not read yet, so first wait until the agent has taken sentinel B
 			// (it comes out after the periodic flush), then send a partial line and reset in the middle of it.
-			wantC := fmt.Sprintf("sentinel-C-of-connection-%d says hello to everybody", ci)
 			deadline := time.Now().Add(5 * time.Second)
-			for time.Now().Before(deadline) && !delivered(clog, wantC) {
+			for time.Now().Before(deadline) && !delivered(clog, sentinelLog(ci, "C", false)) && !delivered(clog, sentinelLog(ci, "C", true)) {
 				time.Sleep(3 * time.Millisecond)
 			}
 			write([]byte("<13>1 2020-01-01T00:00:00Z host app 1 src - cut in the mid"))
@@ -226,9 +241,10 @@ func runHostile(c HostileCase) vh.Result {
 	for ci := range c.Conns {
 		for _, out := range []string{"customFluentd", "datadogAPI"} {
 			// sentinels B and C are complete records of their own; sentinel A may carry continuation lines (the bad bytes)
-			a := fmt.Sprintf("sentinel-A-of-connection-%d says hello to everybody", ci)
-			b := fmt.Sprintf("sentinel-B-of-connection-%d says hello to everybody", ci)
-			cc := fmt.Sprintf("sentinel-C-of-connection-%d says hello to everybody", ci)
+			unesc := out == "customFluentd" // the sample configuration unescapes the message for this output only
+			a := sentinelLog(ci, "A", unesc)
+			b := sentinelLog(ci, "B", unesc)
+			cc := sentinelLog(ci, "C", unesc)
 			okA, okB, okC := false, false, false
 			for k := range got {
 				if !strings.HasPrefix(k, out+"|") {
